@@ -57,6 +57,8 @@ const subBase = 1000
 //	sub   a nested Graph[M, M] (Sub), compiled in its own trigger mode
 //	tools StreamableLambda around compose.ToolsNode.Stream with Tools streaming tool calls (each tool a producer goroutine)
 //	pass  AddPassthroughNode (Graph modes only): the framework hands the input stream on as the output
+//	anyx  TransformableLambda[any, any] returning its input (Graph modes, a node with one predecessor only):
+//	      the edges out of it and the branches on it need a run-time type check (edge / branch pre handlers)
 type NodeSpec struct {
 	Kind     string       `json:"kind"`
 	Cap      int          `json:"cap,omitempty"`
@@ -281,6 +283,12 @@ func genCase(r *lib.Rng, tier string) *Case {
 	}
 	g.subs(c)
 	if c.Mode != "workflow" {
+		g.anyNodes(c.Nodes, c.StartSucc, c.StartBranches)
+		for i := range c.Nodes {
+			if sub := c.Nodes[i].Sub; sub != nil {
+				g.anyNodes(sub.Nodes, sub.StartSucc, sub.StartBranches)
+			}
+		}
 		g.keys(c)
 	}
 	// state handlers: value handlers concatenate the stream, stream handlers pass it on (as it is or wrapped)
@@ -289,7 +297,7 @@ func genCase(r *lib.Rng, tier string) *Case {
 		hk := []string{"value", "stream", "wrap"}
 		for i := range c.Nodes {
 			n := &c.Nodes[i]
-			if n.Kind == "sub" || n.Kind == "pass" || n.InKey != "" || n.OutKey != "" {
+			if n.Kind == "sub" || n.Kind == "pass" || n.Kind == "anyx" || n.InKey != "" || n.OutKey != "" {
 				continue
 			}
 			if r.Chance(1, 3) {
@@ -502,6 +510,34 @@ func (g *genCtx) genPregel(c *Case, maxN int) {
 			c.StartSucc, c.StartBranches = edges, brs
 		} else {
 			c.Nodes[j].Succ, c.Nodes[j].Branches = edges, brs
+		}
+	}
+}
+
+// anyNodes turns some lambda nodes that have exactly one predecessor into any-typed ones (a stream of
+// any cannot be merged with another stream, so such a node takes its input from one place only).
+func (g *genCtx) anyNodes(nodes []NodeSpec, startSucc []int, startBranches []BranchSpec) {
+	preds := map[int]int{}
+	add := func(succ []int, brs []BranchSpec) {
+		for _, t := range succ {
+			preds[t]++
+		}
+		for _, b := range brs {
+			for _, t := range b.Ends {
+				preds[t]++
+			}
+		}
+	}
+	add(startSucc, startBranches)
+	for _, n := range nodes {
+		add(n.Succ, n.Branches)
+	}
+	for i := range nodes {
+		switch nodes[i].Kind {
+		case "xform", "conv", "ident", "pass":
+			if preds[i] == 1 && g.r.Chance(1, 5) {
+				nodes[i].Kind = "anyx"
+			}
 		}
 	}
 }
